@@ -504,6 +504,25 @@ func checkWeakKeyStatus(c *km.Ctx, s *km.Sem) {
 				return false
 			})
 			if !on {
+				// a key that does not decode is the client's mistake as well (answered 4xx, not 5xx)
+				decoders := map[string]int{"(*encoding/base64.Encoding).DecodeString": 1, "crypto/x509.ParsePKIXPublicKey": 1, "golang.org/x/crypto/ssh.ParseAuthorizedKey": 4, "golang.org/x/crypto/ssh.ParsePublicKey": 1}
+				malformed := len(rc.State) > 0 && rc.State.All(func(k km.Conj) bool {
+					for _, f := range k.List() {
+						if f.Op != token.NEQ || !km.IsNilConst(f.Y) {
+							continue
+						}
+						if cl, i := callRes(f.X); cl != nil {
+							if want, is := decoders[km.CalleeFull(cl.Common())]; is && want == i {
+								return true
+							}
+						}
+					}
+					return false
+				})
+				if malformed {
+					ok := km.IsNilConst(rc.Results[0]) && !km.IsNilConst(rc.Results[1]) && km.IsNilConst(rc.Results[2])
+					r.Add("R-C10-3", km.FuncName(fn), "malformed key is a user error", posOf(c, rc.Ret), "(nil, userError, nil)", sprintf("%v", ok), ok)
+				}
 				continue
 			}
 			n++
